@@ -1,6 +1,6 @@
 (* C16 — Serialized trees deserialize to the same tree.  Property theorems only. *)
 From CsModel Require Extracted.
-From CsModel Require Import Builder BuilderSpec BuilderProofs Serde.
+From CsModel Require Import Builder BuilderSpec BuilderProofs Serde SerdeExact.
 
 (* the text field of the token event, as typed in the CURRENT source, can be read from every kind of
    input (borrowed plain, borrowed with escapes, owned: from_reader / from_value) *)
@@ -53,6 +53,21 @@ Proof.
   exists (fun _ => None), (fun _ => 0), [SvEnter 1 false; SvEnter 2 false; SvLeave]. eexists _, _, _. split; reflexivity.
 Qed.
 Print Assumptions C16_unchecked_refuted.
+
+(* the nesting check decides exactly "one well-nested tree rooted in a node" *)
+Theorem C16_nest_ok_iff_parse : forall static_text evs,
+  nest_ok evs 0 0 = true <-> exists t, parse static_text (map to_bop evs) = Some t.
+Proof. exact nest_ok_iff_parse. Qed.
+Print Assumptions C16_nest_ok_iff_parse.
+
+(* ... so, with the token text field as it is typed in the current source, the deserializer reports an
+   error for exactly the event streams that are not one well-nested tree — and accepts all others *)
+Theorem C16_rejects_exactly : forall static_text H threshold debug m evs,
+  deser_tree static_text H threshold debug true serde_token_text_ty m evs = DErr <-> parse static_text (map to_bop evs) = None.
+Proof.
+  intros. apply deser_rejects_exactly. exact C16_text_field_reads_every_input.
+Qed.
+Print Assumptions C16_rejects_exactly.
 
 (* every source fact this property's model depends on was found by the translator in the current
    source (otherwise the model would be running on the values the proofs were written for) *)
